@@ -80,6 +80,8 @@ pub enum CompressedScalar {
     String(String),
     Bool(bool),
     Null,
+    /// Raw bytes, stored as is (appended last so existing snapshots keep their variant indices).
+    Bytes(Vec<u8>),
 }
 
 /// Compressed representation of a tensor value.
